@@ -28,6 +28,7 @@ MODULES = {
     'C15': ['contracts.c15'],
     'C19': ['contracts.c19'],
     'C16': ['contracts.c16'],
+    'C13': ['contracts.c13'],
 }
 
 EXTRACTION_DROPS = ['docstrings', 'type annotations', 'typing.cast (identity)', 'with torch.no_grad() (body kept)',
